@@ -36,6 +36,7 @@
     `Res1.unmodelled`, never a guessed result.
 -/
 import BlocV.Model.Interp
+import BlocV.Model.Typing
 
 namespace BlocV.CApi
 open BlocV
@@ -187,13 +188,16 @@ structure BadText where
   col : Nat := 1
   /-- symbols the parser registered before it failed (they stay: only upgrades are rolled back) -/
   newSyms : List (String × Ty) := []
+  /-- variables the text reads without declaring them (only expression texts: `bloc_parse_expression` cannot
+  declare anything): the error `code` is the one reported when each of them is registered with exactly this type -/
+  needSyms : List (String × Ty) := []
   deriving Repr, Inhabited
 
 /-- Texts `bloc_parse_executable` rejects, with the error code it reports and the position it
 writes to `*pos` (observed on the pinned tree; none of them depends on the context's symbols —
 the names used here are reserved for this catalog). Code 0 is `EXC_PARSE_EOF`: the text ended
 inside a statement. -/
-def badProgs : List BadText := [
+def handBadProgs : List BadText := [
   { src := "x = ;", code := Gen.EXC_PARSE_UNEXPECTED_LEX_S, col := 5 },
   { src := "1 +", code := Gen.EXC_PARSE_NOT_A_STATEMENT },
   { src := "q9 = 1", code := Gen.EXC_PARSE_EOF },
@@ -226,7 +230,7 @@ def badProgs : List BadText := [
 
 /-- Texts `bloc_parse_expression` rejects (it needs a terminating newline or `;` after the
 expression: without one the scanner reports EOF). -/
-def badExprs : List BadText := [
+def handBadExprs : List BadText := [
   { src := "1 +\n", code := Gen.EXC_PARSE_UNEXPECTED_LEX_S },
   { src := "1 + \"a\"\n", code := Gen.EXC_PARSE_TYPE_MISMATCH_S },
   { src := "nosuchvar9\n", code := Gen.EXC_PARSE_UNDEFINED_SYMBOL_S },
@@ -239,6 +243,181 @@ def badExprs : List BadText := [
   { src := "substr(\"a\")\n", code := Gen.EXC_PARSE_FUNC_ARG_NUM_S },
   { src := "\"a\" - 1\n", code := Gen.EXC_PARSE_TYPE_MISMATCH_S } ]
 
+/-! ## operator texts, generated from the typing model
+
+Every operator spelling the scanner / `ParseExpression` knows × operand form × operand types. Whether
+`ParseExpression` accepts `L op R` is decided by `Typing.acceptBin` / `acceptUn` on the STATIC types of the operand
+ASTs (`typeOfExpr`), never by a hand-written verdict: the rejected ones extend the catalogs of rejected texts, the
+accepted ones are parsed as ordinary good texts (their AST is built here as well). The check runs all of them
+through `bloc_parse_expression` and `bloc_parse_executable`: a disagreement is a finding or a slip of Typing.lean. -/
+
+/-- What an operator spelling denotes. `matches` has no `BinOp` (the interpreter model does not evaluate it);
+its operand check is `acceptMatch` below. -/
+inductive OpK
+  | bin (op : BinOp) | mat | un (op : UnOp)
+  deriving DecidableEq, Repr, Inhabited
+
+/-- tokenizer.lex (`**` `<<` `>>` `==` `!=` `<>` `<=` `>=` `&&` `||`), the single characters and the keywords
+`Operator::OPVALS` compared in parse_expression.cpp (`power`, `matches`, `and`, `or`, `xor`). -/
+def binSpellings : List (String × OpK) := [
+  ("+", .bin .add), ("-", .bin .sub), ("*", .bin .mul), ("/", .bin .div), ("%", .bin .mod),
+  ("**", .bin .exp), ("power", .bin .exp), ("<<", .bin .pop), (">>", .bin .pus),
+  ("&", .bin .and), ("|", .bin .ior), ("^", .bin .xor),
+  ("==", .bin .eq), ("!=", .bin .ne), ("<>", .bin .ne), ("<", .bin .lt), ("<=", .bin .le), (">", .bin .gt), (">=", .bin .ge),
+  ("matches", .mat),
+  ("and", .bin .band), ("&&", .bin .band), ("or", .bin .bior), ("||", .bin .bior), ("xor", .bin .bxor) ]
+
+/-- `ParseExpression::primary`: `!` `not` `~` `-` `+`. -/
+def unSpellings : List (String × OpK) := [
+  ("!", .un .bnot), ("not", .un .bnot), ("~", .un .not), ("-", .un .neg), ("+", .un .pos) ]
+
+/-- `relation()`: `new OpMATCHExpression(assertType(result, LITERAL, …, false), assertType(bitlogic(), LITERAL, …))`. -/
+def acceptMatch (t1 t2 : Ty) : Bool := typeChecking t2 Ty.str && typeChecking t1 Ty.str
+
+inductive OForm
+  | lit | var | paren | call | memb
+  deriving DecidableEq, Repr, Inhabited
+
+inductive OTy
+  | int | str | bool
+  deriving DecidableEq, Repr, Inhabited
+
+def OTy.ty : OTy → Ty
+  | .int => Ty.int | .str => Ty.str | .bool => Ty.bool
+
+def OForm.all : List OForm := [.lit, .var, .paren, .call, .memb]
+def OTy.all : List OTy := [.int, .str, .bool]
+
+/-- The variables of the `var` form (names reserved for these texts), with the types they are declared with. -/
+def opVars : List (String × Ty) := [("V_I9", Ty.int), ("V_S9", Ty.str), ("V_B9", Ty.bool)]
+
+def opVarName : OTy → String
+  | .int => "V_I9" | .str => "V_S9" | .bool => "V_B9"
+
+private def sB (s : String) : Bytes := s.toUTF8.toList
+
+/-- An operand: BLOC source and AST. The static type of the AST is computed by `typeOfExpr` (`OpCase.lty`,
+`OpCase.rty`); that it is the intended one is `C15.atom_static_type`. -/
+def atom : OForm → OTy → String × Expr
+  | .lit, .int => ("1", .lit (.int 1))
+  | .lit, .str => ("\"a\"", .lit (.str (sB "a")))
+  | .lit, .bool => ("true", .lit (.bool true))
+  | .var, .int => ("v_i9", .var "V_I9")
+  | .var, .str => ("v_s9", .var "V_S9")
+  | .var, .bool => ("v_b9", .var "V_B9")
+  | .paren, .int => ("(1 + 2)", .bin .add (.lit (.int 1)) (.lit (.int 2)))
+  | .paren, .str => ("(\"a\" + \"b\")", .bin .add (.lit (.str (sB "a"))) (.lit (.str (sB "b"))))
+  | .paren, .bool => ("(1 < 2)", .bin .lt (.lit (.int 1)) (.lit (.int 2)))
+  | .call, .int => ("strlen(\"ab\")", .call "strlen" [.lit (.str (sB "ab"))])
+  | .call, .str => ("upper(\"a\")", .call "upper" [.lit (.str (sB "a"))])
+  | .call, .bool => ("isnull(1)", .call "isnull" [.lit (.int 1)])
+  | .memb, .int => ("\"ab\".count()", .member .count (.lit (.str (sB "ab"))) [])
+  | .memb, .str => ("\"ab\".concat(\"c\")", .member .concat (.lit (.str (sB "ab"))) [.lit (.str (sB "c"))])
+  | .memb, .bool => ("tab(2, true).at(0)", .member .at (.call "tab" [.lit (.int 2), .lit (.bool true)]) [.lit (.int 0)])
+
+structure OpCase where
+  spell : String
+  k : OpK
+  form : OForm
+  /-- left operand (unused by a unary operator) -/
+  tl : OTy
+  tr : OTy
+  deriving Repr, Inhabited
+
+def OpCase.unary (oc : OpCase) : Bool := match oc.k with | .un _ => true | _ => false
+
+def atomTy (f : OForm) (t : OTy) : Ty := typeOfExpr [] opVars 100 (atom f t).2
+
+/-- static types of the operands, as the parser computes them (`exp->type(ctx)`) -/
+def OpCase.lty (oc : OpCase) : Ty := atomTy oc.form oc.tl
+def OpCase.rty (oc : OpCase) : Ty := atomTy oc.form oc.tr
+
+/-- The verdict of the typing model on the operand types. -/
+def OpCase.accepted (oc : OpCase) : Bool :=
+  match oc.k with
+  | .bin op => acceptBin op oc.lty oc.rty
+  | .mat => acceptMatch oc.lty oc.rty
+  | .un op => acceptUn op oc.rty
+
+/-- Is one side ill-typed on its own, i.e. against an operand of opaque type on the other side? (`+` and the
+order relations check the right operand against the type of the left one: no side is ill-typed on its own.) -/
+def OpCase.leftBad (oc : OpCase) : Bool :=
+  match oc.k with
+  | .bin op => !acceptBin op oc.lty Ty.none
+  | .mat => !acceptMatch oc.lty Ty.none
+  | .un _ => false
+
+def OpCase.rightBad (oc : OpCase) : Bool :=
+  match oc.k with
+  | .bin op => !acceptBin op Ty.none oc.rty
+  | .mat => !acceptMatch Ty.none oc.rty
+  | .un op => !acceptUn op oc.rty
+
+/-- `L op R` / `op R`, one blank around the operator. -/
+def OpCase.body (oc : OpCase) : String :=
+  if oc.unary then oc.spell ++ " " ++ (atom oc.form oc.tr).1
+  else (atom oc.form oc.tl).1 ++ " " ++ oc.spell ++ " " ++ (atom oc.form oc.tr).1
+
+def OpCase.ast (oc : OpCase) : Option Expr :=
+  match oc.k with
+  | .bin op => some (.bin op (atom oc.form oc.tl).2 (atom oc.form oc.tr).2)
+  | .un op => some (.un op (atom oc.form oc.tr).2)
+  | .mat => none
+
+/-- the variables the text reads -/
+def OpCase.vars (oc : OpCase) : List (String × Ty) :=
+  if oc.form != .var then []
+  else if oc.unary || oc.tl == oc.tr then [(opVarName oc.tr, oc.tr.ty)]
+  else [(opVarName oc.tl, oc.tl.ty), (opVarName oc.tr, oc.tr.ty)]
+
+/-- text for `bloc_parse_expression` (the terminating newline is required) -/
+def OpCase.exprSrc (oc : OpCase) : String := oc.body ++ "\n"
+
+/-- the declarations a program text of the `var` form starts with (its own first line) -/
+def opVarDecls : String := "v_i9 = 1; v_s9 = \"a\"; v_b9 = true;\n"
+def opVarDeclStmts : List Stmt :=
+  [.letS "V_I9" (.lit (.int 1)), .letS "V_S9" (.lit (.str (sB "a"))), .letS "V_B9" (.lit (.bool true))]
+
+/-- text for `bloc_parse_executable`: self-contained, the `var` form declares its variables first -/
+def OpCase.progSrc (oc : OpCase) : String :=
+  (if oc.form == .var then opVarDecls else "") ++ "q9 = " ++ oc.body ++ ";"
+
+def OpCase.prog (oc : OpCase) : Option (List Stmt) :=
+  oc.ast.map fun e => (if oc.form == .var then opVarDeclStmts else []) ++ [.letS "Q9" e]
+
+/-- (line, column) of the LAST character of a text, both 1-based: the type error of an operator is reported at
+the token that follows the right operand (`p.front()` in `assertType`), which in `q9 = L op R;` is the final `;`. -/
+def endPos (src : String) : Nat × Nat :=
+  let pre := src.toList.dropLast
+  (1 + (pre.filter (· == '\n')).length, 1 + (pre.reverse.takeWhile (· != '\n')).length)
+
+def OpCase.badExpr (oc : OpCase) : BadText :=
+  { src := oc.exprSrc, code := Gen.EXC_PARSE_TYPE_MISMATCH_S, needSyms := oc.vars }
+
+def OpCase.badProg (oc : OpCase) : BadText :=
+  { src := oc.progSrc, code := Gen.EXC_PARSE_TYPE_MISMATCH_S, line := (endPos oc.progSrc).1, col := (endPos oc.progSrc).2,
+    newSyms := if oc.form == .var then opVars else [] }
+
+/-- All operator cases: every binary spelling × form × (left type, right type), every unary spelling × form × type. -/
+def opCases : List OpCase :=
+  (binSpellings.flatMap fun (sp, k) => OForm.all.flatMap fun f => OTy.all.flatMap fun tl => OTy.all.map fun tr =>
+    ({ spell := sp, k := k, form := f, tl := tl, tr := tr } : OpCase)) ++
+  (unSpellings.flatMap fun (sp, k) => OForm.all.flatMap fun f => OTy.all.map fun tr =>
+    ({ spell := sp, k := k, form := f, tl := .int, tr := tr } : OpCase))
+
+def OpCase.rejected (oc : OpCase) : Bool := !oc.accepted
+
+def genBadExprs : List BadText := (opCases.filter OpCase.rejected).map OpCase.badExpr
+def genBadProgs : List BadText := (opCases.filter OpCase.rejected).map OpCase.badProg
+
+/-- The catalogs of rejected texts: the hand-written entries, then the operator texts the typing model rejects. -/
+def badProgs : List BadText := handBadProgs ++ genBadProgs
+def badExprs : List BadText := handBadExprs ++ genBadExprs
+
+/-- Catalog index of the i-th operator case when it is rejected: the hand-written entries come first, then the
+rejected operator cases in the order of `opCases`. -/
+def opBadIndex (nhand i : Nat) : Nat := nhand + (opCases.take i).countP OpCase.rejected
+
 inductive ProgText
   | good (p : List Stmt)
   | bad (k : Nat)
@@ -248,6 +427,29 @@ inductive ExprText
   | good (e : Expr)
   | bad (k : Nat)
   deriving Inhabited
+
+/-- The text the check sends for the i-th operator case to `bloc_parse_expression`: a catalog entry when the typing
+model rejects the operand types, else the AST (`none`: accepted `matches`, which has no AST). -/
+def opExprText (i : Nat) : Option ExprText :=
+  match opCases[i]? with
+  | some oc => if oc.rejected then some (.bad (opBadIndex handBadExprs.length i)) else oc.ast.map .good
+  | none => none
+
+def opProgText (i : Nat) : Option ProgText :=
+  match opCases[i]? with
+  | some oc => if oc.rejected then some (.bad (opBadIndex handBadProgs.length i)) else oc.prog.map .good
+  | none => none
+
+def symTyOf (x : Ctx) (n : String) : Option Ty := (x.syms.find? (·.name == n)).map (·.ty)
+
+/-- The error a rejected expression text raises in context `x`: a variable it reads that is not registered is
+reported first (`VariableExpression::parse`, while the operands are parsed: before any operand type is checked);
+with every variable registered at the type the entry was generated for it is the entry's code; with a variable
+of another type the verdict is not this entry's (`none`: unmodelled). -/
+def BadText.codeIn (bt : BadText) (x : Ctx) : Option Nat :=
+  if bt.needSyms.any (fun p => (symTyOf x p.1).isNone) then some Gen.EXC_PARSE_UNDEFINED_SYMBOL_S
+  else if bt.needSyms.all (fun p => symTyOf x p.1 == some p.2) then some bt.code
+  else none
 
 /-! ## operations and results -/
 
@@ -704,7 +906,10 @@ def opEparse (s : State) (c e : Nat) (t : ExprText) : State × Out :=
     | .good ex => ({ s1 with exprs := s1.exprs.set e (some { ctx := c, gen := x.gen, e := ex }) }, { reread := rr, res := .unit })
     | .bad k =>
       match badExprs[k]? with
-      | some bt => (setErr s1 bt.code, { reread := rr, res := .null, fail := some bt.code })
+      | some bt =>
+        match bt.codeIn x with
+        | some code => (setErr s1 code, { reread := rr, res := .null, fail := some code })
+        | none => (s1, { reread := rr, res := .unmodelled })
       | none => (s, .pre)
   | _, _ => (s, .pre)
 
